@@ -39,15 +39,29 @@ def run(ctx, report):
     # ------------------------------------------------------------------ R16-eqhash
     r = report.rule("R16-eqhash", floor=4, what="__eq__/__hash__/__lt__ defined together, all on str(self); no subclass overrides only part of them")
     trio = ("__eq__", "__hash__", "__lt__")
-    for c in [base] + classes:
+    # every package class in the MRO of a value class (Base, mixins, the class itself) defines none or all three of them
+    mro_classes = []
+    for c in classes:
+        for k in c.mro(prog):
+            if k not in mro_classes:
+                mro_classes.append(k)
+    for c in mro_classes:
         have = [n for n in trio if n in c.methods]
         r.instance({"class": c.qualname, "defines": have})
         if have and len(have) != 3:
             r.finding(f"{c.short}:partial", f"{c.short} defines {have} but not {[n for n in trio if n not in have]}; equality, hashing and ordering would disagree", c.where)
-    if not all(n in base.methods for n in trio):
-        r.finding("Base:missing", "Base no longer defines __eq__, __hash__ and __lt__ together", base.where)
+    # ... and for every value class the three resolve (through the MRO, ahead of str) to one and the same package class
+    owners = {}
+    for c in classes:
+        found = {n: (c.lookup(prog, n) or (None,))[0] for n in trio}
+        owners[c.qualname] = found
+    resolved = all(all(v is not None for v in f.values()) and len({id(v) for v in f.values()}) == 1 for f in owners.values())
+    owner = next(iter(next(iter(owners.values())).values())) if resolved else None
+    if not resolved:
+        r.finding("Base:missing", "the value classes no longer inherit __eq__, __hash__ and __lt__ together from one class ahead of str", base.where)
     else:
-        if not any((dotted(d) or "").endswith("total_ordering") for d in base.decorators) and not all(n in base.methods for n in ("__le__", "__gt__", "__ge__")):
+        ordering_holder = [k for k in mro_classes if any((dotted(d) or "").endswith("total_ordering") for d in k.decorators)]
+        if not ordering_holder and not all(n in owner.methods for n in ("__le__", "__gt__", "__ge__")):
             r.finding("Base:ordering", "Base defines __lt__ only: <=, >, >= fall back to str's and can disagree (no total_ordering)", base.where)
         it = facts.interp()
         pairs = [("AB", "AB"), ("AB", "AC"), ("AC", "AB"), ("A", "AB"), ("", ""), ("DE89", "de89"), ("Z", "A")]
